@@ -79,7 +79,7 @@ class Variation:
 
     def __init__(self, rng=None, *, st_perm=None, sess_perm=None, shift=0, evse_kinds=None, dict_shuffle=True,
                  vtypes=True, constraints="none", con_perm=False, mutate=False, twostage=False,
-                 store_hist=True, est_seed=0, verbose=False, queue_form="ctor", late_scheduler=False, np_ints=False, sub_events=False, reuse_evs=False,
+                 store_hist=True, est_seed=0, verbose=False, queue_form="ctor", late_scheduler=False, np_ints=False, sub_events=False, reuse_evs=False, eps_pilots=False,
                  aware_start=False):
         self.rng = rng or random.Random(0)
         self.st_perm, self.sess_perm, self.shift = st_perm, sess_perm, shift
@@ -92,6 +92,10 @@ class Variation:
         self.verbose, self.queue_form, self.late_scheduler = verbose, queue_form, late_scheduler
         self.sub_events = sub_events      # events are instances of user subclasses of the three event classes
         self.reuse_evs = reuse_evs        # the EV objects served an earlier simulation and were reset() (documented reuse)
+        # a pilot equal to the station's maximum (32 A) is submitted as 32.0005 A: inside the 1e-3 A band every EVSE
+        # class accepts, and what is recorded and applied is the submitted value (energies are then not those of the
+        # specification: only the implementation's own ledger is compared, as for two-stage batteries)
+        self.eps_pilots = eps_pilots
         self.np_ints = np_ints          # arrivals / departures / event timestamps as numpy integers
         self.aware_start = aware_start  # Simulator.start carries a time zone (the clock is compared by its wall time)
 
@@ -297,7 +301,7 @@ class Replay:
         self.var = var or Variation()
         self.menu = idx_map(self.start["menu"])
         self.cur = 1  # next record to consume
-        self.compare_energy = compare_spec_energy and not self.var.twostage
+        self.compare_energy = compare_spec_energy and not self.var.twostage and not self.var.eps_pilots
         self.T = self.start["T"]
         self.pu = float(self.start.get("pu", 1))     # spec pilots are in units of 1/pu ampere
         self.volt = self.start["volt"]
@@ -439,10 +443,19 @@ class Replay:
         self.pre_reject = self.snapshot() if self.pending_bad is not None else None
         return self.realise(m, alg.interface)
 
+    def pv(self, x):
+        """The ampere value for the specification's pilot x (units of 1/pu A)."""
+        v = x / self.pu
+        if self.var.eps_pilots and v == 32.0:
+            return 32.0005
+        return v
+
     def realise(self, m, iface=None):
         rows = idx_map(m["rows"]) if m["rows"] not in ([], {}) else {}
         rng = self.var.rng
-        if self.pu == 1:
+        if self.var.eps_pilots:
+            items = [(sid(s), [self.pv(x) for x in v]) for s, v in rows.items()]
+        elif self.pu == 1:
             items = [(sid(s), list(v)) for s, v in rows.items()]
         else:       # non-integral pilots: integral values stay ints, so a row may mix ints and floats
             items = [(sid(s), [x // int(self.pu) if x % int(self.pu) == 0 else x / self.pu for x in v])
@@ -539,7 +552,7 @@ class Replay:
         if not self.k and self.compare_energy:
             self._chk("C05", "last_applied_pilot_signals.keys", sorted(vid(i) for i in lastP), sorted(lp))
             for i, p in lastP.items():
-                self._chk("C05", "last_applied_pilot_signals", p / self.pu, lp[vid(i)], close(lp[vid(i)], p / self.pu))
+                self._chk("C05", "last_applied_pilot_signals", self.pv(p), lp[vid(i)], close(lp[vid(i)], self.pv(p)))
         if self.compare_energy:
             self._chk("C05", "prev_peak", self.peak_spec(obs["peakN"]), iface.get_prev_peak(),
                       close(iface.get_prev_peak(), self.peak_spec(obs["peakN"])))
@@ -681,7 +694,7 @@ class Replay:
         for s in range(1, self.ns + 1):
             j = self.row(s)
             p_impl = float(sim.pilot_signals[j, t]) if t < sim.pilot_signals.shape[1] else 0.0
-            want = r["P"][s - 1] / self.pu
+            want = self.pv(r["P"][s - 1])
             self._chk("C04", "pilot_signals[%s,%d]" % (sid(s), t), want, p_impl, close(p_impl, want))
             cp = float(sim.network._EVSEs[sid(s)].current_pilot)
             self._chk("C04", "evse.current_pilot[%s]@%d" % (sid(s), t), want, cp, close(cp, want))
@@ -755,7 +768,7 @@ class Replay:
             rowspec = spec_pilots[s - 1]
             for k0, p in enumerate(rowspec):
                 k = k0 + self.k
-                p = p / self.pu
+                p = self.pv(p)
                 p_impl = float(sim.pilot_signals[j, k]) if k < w else 0.0
                 self._chk(owner, "%s[%s,%d]" % (what, sid(s), k0), p, p_impl, close(p_impl, p))
             for k in list(range(0, min(self.k, w))) + list(range(len(rowspec) + self.k, w)):
@@ -807,8 +820,8 @@ class Replay:
         """C06 inside the simulator: _update_schedules warns exactly when the submitted schedule violates a
         constraint (spec: Warning(ConsAgg, m)), naming the worst constraint and column."""
         got = self.new_schedule_warnings()
-        if got is None or "warnAgg" not in r or self.k:
-            return
+        if got is None or "warnAgg" not in r or self.k or self.var.eps_pilots:
+            return      # (with pilots moved by 0.5 mA the aggregates are not the specification's)
         cons = self.var.constraints
         if cons in ("none", "removed"):
             self._chk("C06", "schedule_warning(no constraints)", [], got)
